@@ -185,7 +185,7 @@ fn names_table(pf: &ParsedFormula) -> String {
 
 pub fn c16(out: &mut dyn Write, tier: &str, rng: &mut Rng, st: &mut Stats) {
     // vertex names: plain identifiers, and ones that look like the generator's own copies
-    let pool = ["a", "b", "c", "d", "v_a", "v_b", "x1", "v_v_a"];
+    let pool = ["a", "b", "c", "d", "v_a", "v_b", "x1", "v_v_a", "v__a", "v___a", "v__b"];
     // names whose concatenations coincide (with and without a `_` between them): x + y_z = x_y + z, a + bc = ab + c
     let pool_join = ["x", "y", "z", "x_y", "y_z", "z_x", "x_y_z", "x_", "_y"];
     let pool_cat = ["a", "b", "c", "ab", "bc", "abc", "ca"];
@@ -196,6 +196,9 @@ pub fn c16(out: &mut dyn Write, tier: &str, rng: &mut Rng, st: &mut Stats) {
         vec![("a", "b"), ("b", "c"), ("c", "a")], vec![("a", "b"), ("b", "c")], vec![("a", "v_a")],
         vec![("a", "b"), ("v_a", "b")], vec![("a", "b"), ("b", "a"), ("b", "c"), ("c", "b"), ("a", "c"), ("c", "a")],
         vec![("a", "b"), ("c", "d")], vec![("v_a", "v_v_a"), ("a", "v_a")],
+        // names that clash with the copy prefix at two and three lengths (v_, v__, v___)
+        vec![("a", "v_a"), ("v_a", "a"), ("v_a", "v__a"), ("v__a", "v_a")],
+        vec![("a", "v_a"), ("v_a", "v__a"), ("v__a", "v___a")],
         vec![("x", "y_z"), ("y_z", "x"), ("x", "x_y"), ("x_y", "x"), ("x", "z"), ("z", "x")],
         vec![("x", "y_z"), ("z_x", "y"), ("x_y", "z")], vec![("a", "bc"), ("ab", "c")], vec![("a", "bc"), ("bc", "a"), ("ab", "c")],
     ];
@@ -315,6 +318,8 @@ pub fn c17(out: &mut dyn Write, tier: &str, rng: &mut Rng, st: &mut Stats) {
         let stripped: String = puzzle.chars().filter(|c| !c.is_whitespace()).collect();
         st.hit(&format!("root{}.exit.{}", root, class));
         if class != "ok" { writeln!(out, "C17|sudoku|{}|{}|{}|-|-", root, hex(stripped.as_bytes()), class).unwrap(); continue; }
+        // the bytes themselves, for the text model of the generator (recorded tie, see Thm/C17T.lean)
+        writeln!(out, "C17|text|{}|{}|{}|{}", root, hex(crate_version("sudoku_gen").as_bytes()), hex(stripped.as_bytes()), hex(&stdout)).unwrap();
         match parse_text(&stdout, None) {
             Parsed::Ok(pf) => {
                 let ast = ser_real_renamed(&pf.bdd, &sudoku_rename).unwrap_or_else(|| "ERR".to_string());
@@ -394,6 +399,9 @@ pub fn c18(out: &mut dyn Write, tier: &str, rng: &mut Rng, st: &mut Stats) {
             let u = rng.chance(1, 2);
             let mut args = vec!["--convert".to_string(), path.clone()];
             if u { args.push("-u".into()); }
+            // every other conversion is written as a graphviz graph (directed arrows keep their orientation)
+            let dot = (i / 2) % 2 == 1;
+            if dot { args.push("--dot".into()); st.hit("convert.dot"); }
             let (class, stdout, _) = if i % 8 == 0 {
                 // in place: the converted list replaces the file it was read from
                 let mut a = args.clone(); a.push("-o".into()); a.push(path.clone());
@@ -401,7 +409,7 @@ pub fn c18(out: &mut dyn Write, tier: &str, rng: &mut Rng, st: &mut Stats) {
                 st.hit("convert.in-place");
                 if class == "ok" { (class, std::fs::read(&path).unwrap_or_default(), se) } else { (class, so, se) }
             } else { run_tool("random_graph_gen", &args, &[], OutArg::DashO, 60, st) };
-            let outp = read_edges(&stdout, false).map(|es| pairs_field(&es)).unwrap_or_else(|| "UNREADABLE".to_string());
+            let outp = read_edges(&stdout, dot).map(|es| pairs_field(&es)).unwrap_or_else(|| "UNREADABLE".to_string());
             writeln!(out, "C18|convert|{}|{}|{}|{}", u as u8, pairs_field(&edges), class, outp).unwrap();
             st.hit("convert");
         } else {
